@@ -39,7 +39,9 @@ def check_row(ex, st, recv, args, kw):
         if b: yield s2, None
         else:
             m = fresh(STR, "msg")[0]; s2.pc.append(z3.Length(m.z) > 0)
+            s3 = s2.copy()
             yield from raise_new(ex, s2, "CheckError", [m, loc])
+            yield from raise_new(ex, s3, "CheckError", [m])           # a plug-in check that does not say where (as the example in the documentation): the validator has to
 
 
 def setup_validate_row(ex, st):
@@ -100,7 +102,7 @@ def validate_row_contract():
                    "field-error-names-first-offending-column-and-field", props=["C04", "C20"]),
             Clause("implies(len(row) == n and forall(j, 0 <= j and j < n, accepts(j)), exc._location._cell == 0 and fields_done == n and checks_done >= 1 and not check_ok(checks_done - 1) and forall(j, 0 <= j and j < checks_done - 1, check_ok(j)))",
                    "check-error-only-after-all-fields-first-failing-check-stops", props=["C04", "C05", "C20"]),
-            Clause("implies(len(row) != n, fields_done == 0 and checks_done == 0)", "count-mismatch-consults-nothing", props=["C04", "C20"]),
+            Clause("implies(len(row) != n, fields_done == 0 and checks_done == 0 and exc._location._cell == 0)", "count-mismatch-consults-nothing-and-is-located-at-the-first-column-(not-where-an-earlier-row-happened-to-fail)", props=["C04", "C20"]),
         ]},
         loops={
             0: LoopSpec(invariants=["fields_done == _i0", "checks_done == 0", "forall(j, 0 <= j and j < _i0, accepts(j))", "loc._line == line0", "len(row) == n"],
@@ -139,7 +141,10 @@ class _StubCheck:
     def check_row(self, field_map, location):
         from cutplace import errors
         self.log.append(("check_row", self.name, tuple(field_map.values()), location.line)); self.seen += 1
-        if tuple(field_map.values()) in self.veto: raise errors.CheckError("veto", location)
+        if tuple(field_map.values()) in self.veto:
+            # every other veto comes without a location, as the check_row() example in the documentation raises it: the validator has to say where
+            self.vetoes = getattr(self, "vetoes", 0) + 1
+            raise errors.CheckError("veto", location) if (len(field_map) % 2) else errors.CheckError("veto")
     def check_at_end(self, location):
         from cutplace import errors
         self.log.append(("check_at_end", self.name))
@@ -165,6 +170,7 @@ def native_validate_row(fields_accept, checks_veto, row, line=3, run_started=Tru
     checks = [_StubCheck("c%d" % i, veto, log) for i, veto in enumerate(checks_veto)]
     v = validio.BaseValidator(_StubCid(fields, checks))
     v._location = errors.Location("<io>", has_cell=True)
+    v._location.set_cell(2)                    # where an earlier row happened to be rejected: must not show in this row's location
     v._has_reset_checks = run_started          # inside a run (rows() / Writer have reset the checks) - or the first row of a run that feeds its rows itself
     for _ in range(line): v._location.advance_line()
     try:
@@ -638,31 +644,50 @@ def setup_write_row(fmt):
         df = Ref("DataFormat"); st.heap[df.oid] = {"_format": fmt, "_is_valid": True, "_header": header}
         fields, cf = fresh(UFList(FIELD), "fields"); st.pc.extend(cf)
         cid = Ref("Cid"); st.heap[cid.oid] = {"_data_format": df, "_field_formats": fields}
-        self = Ref("Writer"); st.heap[self.oid] = {"_cid": cid, "_header": header, "_delegated_writer": w, "_is_closed": False}
+        fnl, cn = fresh(UFList(FNL), "fnl"); st.pc.extend(cn); st.pc.append(fnl.length == fields.length)
+        self = Ref("Writer"); st.heap[self.oid] = {"_cid": cid, "_header": header, "_delegated_writer": w, "_is_closed": False, "_field_names_and_lengths": fnl}
+        st.ghost["fnl"] = fnl
         st.frames[-1].env.update({"self": self, "row_to_write": row}); st.ghost["nfields"] = Sym(INT, fields.length)
         st.ghost.update({"row": row, "header": header, "line0": line0, "loc": loc, "writes": 0, "validate_calls": 0, "row_ok": fresh(BOOL, "row_ok")[0], "written": None, "padded": None, "padded_from": None, "this": self})
     return setup
 
 
 def write_row_contract(fmt):
+    FN = sort_of(FNL)
+    def emitted(st):       # the row handed on: the padded row when the item count matches, else the row itself
+        return st.ghost["padded"] if st.ghost.get("padded") is not None else st.ghost["row"]
+    def fits_upto(ex, st, k):
+        """the first k items of the emitted row are exactly as wide as their fields (what a header row of fixed data has to be)"""
+        kk = lift(k).z; r = emitted(st); fnl = st.ghost["fnl"]; j = z3.Int("j!hf")
+        return Sym(BOOL, z3.ForAll([j], z3.Implies(z3.And(0 <= j, j < kk), z3.Length(r.at(j)) == FN.accessor(0, 1)(fnl.at(j)))))
+    def hdr_fits(ex, st):
+        r = emitted(st); fnl = st.ghost["fnl"]
+        return z3.And(r.length == fnl.length, fits_upto(ex, st, Sym(INT, r.length)).z)
     def wrote_expected(ex, st):
         w = st.ghost["written"]
         if fmt == "fixed":
             # a row with as many items as there are fields is emitted padded; any other row can only be an (unvalidated) header row, which is the caller's business
             return Sym(BOOL, z3.If(st.ghost["row"].length == G(st, "nfields"), z3.BoolVal(w is not None and w is st.ghost["padded"] and st.ghost["padded_from"] is st.ghost["row"]), z3.BoolVal(w is st.ghost["row"])))
         return Sym(BOOL, z3.BoolVal(w is st.ghost["row"]))
-    return Contract("validio.Writer.write_row", setup_write_row(fmt),
+    c = Contract("validio.Writer.write_row", setup_write_row(fmt),
         returns=[Clause("writes == 1", "an-accepted-row-is-emitted-exactly-once", props=["C14"]),
                  Clause(wrote_expected, "what-is-emitted-is-the-row-(fixed:-the-padded-row)", props=["C14"]),
                  Clause("implies(line0 >= header, validate_calls == 1 and row_ok)", "beyond-the-header-only-validated-rows-are-emitted", props=["C14", "C20"]),
-                 Clause("implies(line0 < header, validate_calls == 0)", "header-rows-are-written-unvalidated", props=["C14", "C20"])],
-        raises={"DataError": [Clause("(line0 >= header and validate_calls == 1 and not row_ok and writes == 0 and loc._line == line0) or (writes == 1)", "a-rejected-row-emits-nothing-and-leaves-the-writer-where-it-was", props=["C14"])]},
-        expect=["return", "DataError"], n_loops=0, modifies=["Location._line"])
+                 Clause("implies(line0 < header, validate_calls == 0)", "header-rows-are-written-unvalidated", props=["C14", "C20", "C07"])]
+                + ([Clause(lambda ex, st: Sym(BOOL, z3.Implies(G(st, "line0") < G(st, "header"), hdr_fits(ex, st))), "a-header-row-of-fixed-data-is-emitted-only-if-it-fits-the-layout-(item-count-and-widths)", props=["C14", "C07"])] if fmt == "fixed" else []),
+        raises={"DataError": [Clause(lambda ex, st: Sym(BOOL, z3.Or(z3.And(G(st, "line0") >= G(st, "header"), G(st, "validate_calls") == 1, z3.Not(G(st, "row_ok")), G(st, "writes") == 0, lift(st.heap[st.ghost["loc"].oid]["_line"]).z == G(st, "line0")),
+                                                                  G(st, "writes") == 1,
+                                                                  z3.And(z3.BoolVal(fmt == "fixed"), G(st, "line0") < G(st, "header"), z3.Not(hdr_fits(ex, st)), G(st, "writes") == 0, G(st, "validate_calls") == 0, lift(st.heap[st.ghost["loc"].oid]["_line"]).z == G(st, "line0")))),
+                                     "a-rejected-row-(or-a-header-row-that-does-not-fit-a-fixed-layout)-emits-nothing-and-leaves-the-writer-where-it-was", props=["C14"])]},
+        loops=({0: LoopSpec(invariants=["fits == fits_upto(_i0)"], havoc={"fits": BOOL, "item": STR, "_": STR, "fixed_field_length": INT, "field_index": INT})}),
+        expect=["return", "DataError"], n_loops=1, modifies=["Location._line"])
+    c._fits_upto = fits_upto
+    return c
 
 
 def unit_writer_write_row():
     def make(ctx):
-        return [{"contract": write_row_contract(f), "label": "format " + f,
+        return [{"contract": write_row_contract(f), "label": "format " + f, "spec_functions": {"fits_upto": write_row_contract(f)._fits_upto},
                  "callees": {"validio.BaseValidator.validate_row": ModelContract(m_w_validate_row), "validio.Writer._padded_fixed_row": ModelContract(m_padded),
                              "ref:FixedRowWriter.write_row": m_delegate_write_row, "ref:DelimitedRowWriter.write_row": m_delegate_write_row},
                  "assumptions": ["callee contracts: validate_row (verified), _padded_fixed_row (verified below), the delegated writer's write_row (rowio units): writes one row, advances its location, raises only DataFormatError"]} for f in ("delimited", "fixed")]
@@ -852,6 +877,24 @@ def _writer_from_cid_path(fmt):
         shutil.rmtree(d, ignore_errors=True)
 
 
+def _writer_header_rows(case):
+    """header rows are written unvalidated (C07) - but a header row that does not fit a fixed layout is refused with a data error, nothing is written for it, and the output reads back"""
+    from cutplace import interface, validio, errors
+    fmt, header = case
+    text = ("d,format,delimited\nd,header,1\nf,a,,,,Integer\nf,b\n" if fmt == "delimited" else "d,format,fixed\nd,line delimiter,lf\nd,header,1\nf,a,,,3,Integer\nf,b,,,2\n")
+    out = io.StringIO(); w = validio.Writer(interface.create_cid_from_string(text), out)
+    fits = fmt == "delimited" or (len(header) == 2 and all(isinstance(x, str) for x in header) and len(header[0]) <= 3 and len(header[1]) <= 2)
+    if fmt == "delimited" and not all(isinstance(x, str) for x in header): return None      # (the csv module writes str() of anything)
+    try: w.write_row(list(header)); got = True
+    except errors.DataError: got = False
+    except Exception as e: return {"expected": "header row written or a DataError", "observed": "%s: %s" % (type(e).__name__, str(e)[:80])}
+    if got != fits: return {"expected": "header row %s" % ("written" if fits else "refused"), "observed": "written" if got else "refused"}
+    if not got: w.write_row(["id", "nm"])          # a fitting header row after the refused one
+    w.write_row(["  7" if fmt == "fixed" else "7", "xy"]); w.close()
+    back = list(validio.rows(interface.create_cid_from_string(text), io.StringIO(out.getvalue())))
+    return None if back == [["  7" if fmt == "fixed" else "7", "xy"]] else {"expected": "the data row reads back after the header row", "observed": "%r from %r" % (back, out.getvalue())}
+
+
 def _writer_non_string_items(fmt):
     """items that are no strings are rejected like any other bad cell (a FieldValueError naming the field), the writer goes on"""
     from cutplace import interface, validio, errors
@@ -949,6 +992,8 @@ def unit_writer_sweep():
                       "all sequences of 2-3 values over {ab, 'ab ', a, 'a  ', abc, ''} in a 3-wide IsUnique field", describe=lambda c: {"values": list(c)}, function="validio.Writer.write_row", unit="C14.sweep"),
                 sweep("C14/sweep/a failing end-of-data check at close() still leaves the accepted rows in a closed file", ["delimited", "fixed"], _writer_close_with_failing_end_check, "bounded", "2 formats, 3 rows, DistinctCount failing at close",
                       describe=lambda c: {"format": c}, function="validio.Writer.close", unit="C14.sweep"),
+                sweep("C14/sweep/header rows: written unvalidated, refused only when they do not fit a fixed layout", [(f_, h_) for f_ in ("delimited", "fixed") for h_ in (["id", "nm"], ["x", ""], ["ident", "nm"], ["id", "name"], ["id"], ["id", "nm", "x"], ["id", None], [1, 2], ["not a number", "!!"])],
+                      _writer_header_rows, "bounded", "2 formats x 9 header rows (fitting, too long, too few / many items, items that are no strings)", describe=lambda c: {"format": c[0], "header row": c[1]}, function="validio.Writer.write_row", unit="C14.sweep", props=["C14", "C07", "C10"]),
                 sweep("C14/sweep/items that are no strings are rejected as bad cells", ["delimited", "fixed"], _writer_non_string_items, "bounded", "2 formats x 5 rows with an int, None, float, bytes, list item",
                       describe=lambda c: {"format": c}, function="validio.Writer.write_row", unit="C14.sweep", props=["C14", "C10"]),
                 sweep("C14/sweep/a writer created from the path of a CID writes what a writer created from the loaded Cid writes", ["delimited", "fixed"], _writer_from_cid_path, "bounded", "2 formats, 2 rows",
